@@ -1,9 +1,9 @@
-import Shentu.EVM.BigOps
+import Shentu.Arith.BigOps
 /-
-  Facts about the library model `Shentu/EVM/BigOps.lean` (math/big, Burrow binary/stack) in terms of `BitVec 256`.
+  Facts about the library model `Shentu/Arith/BigOps.lean` (math/big, Burrow binary/stack) in terms of `BitVec 256`.
   Nothing here mentions the generated definitions.
 -/
-namespace Shentu.EVM
+namespace Shentu.Arith
 
 theorem two256 : (2 : Int) ^ 256 = 115792089237316195423570985008687907853269984665640564039457584007913129639936 := by decide
 
@@ -142,4 +142,4 @@ theorem xorDiv256 (a b : Nat) : (a ^^^ b) / 256 = (a / 256) ^^^ (b / 256) := by
 
 theorem pow256_32 : 256 ^ 32 = 2 ^ 256 := by decide
 
-end Shentu.EVM
+end Shentu.Arith
